@@ -621,6 +621,9 @@ func (a *Agent) IsKnownRequestID(teamserver TeamServer, RequestID uint32, Comman
 		return true
 	}
 
+	a.JobMtx.Lock()
+	defer a.JobMtx.Unlock()
+
 	for i := range a.Tasks {
 		if a.Tasks[i].RequestID == RequestID {
 			return true
@@ -630,6 +633,7 @@ func (a *Agent) IsKnownRequestID(teamserver TeamServer, RequestID uint32, Comman
 }
 
 // the operator added a new request/command
+// the caller holds a.JobMtx
 func (a *Agent) AddRequest(job Job) []Job {
 	a.Tasks = append(a.Tasks, job)
 	return a.Tasks
@@ -637,6 +641,9 @@ func (a *Agent) AddRequest(job Job) []Job {
 
 // after a request has been completed, we can forget about the RequestID so that it is no longer valid
 func (a *Agent) RequestCompleted(RequestID uint32) {
+	a.JobMtx.Lock()
+	defer a.JobMtx.Unlock()
+
 	for i := range a.Tasks {
 		if a.Tasks[i].RequestID == RequestID {
 			a.Tasks = append(a.Tasks[:i], a.Tasks[i+1:]...)
@@ -646,6 +653,9 @@ func (a *Agent) RequestCompleted(RequestID uint32) {
 }
 
 func (a *Agent) AddJobToQueue(job Job) []Job {
+	a.JobMtx.Lock()
+	defer a.JobMtx.Unlock()
+
 	// store the RequestID									
 	a.AddRequest(job)
 	// if it's a pivot agent then add the job to the parent
@@ -660,7 +670,18 @@ func (a *Agent) AddJobToQueue(job Job) []Job {
 	return a.JobQueue
 }
 
+// HasQueuedJobs tells if there is at least one job waiting for the agent
+func (a *Agent) HasQueuedJobs() bool {
+	a.JobMtx.Lock()
+	defer a.JobMtx.Unlock()
+
+	return len(a.JobQueue) > 0
+}
+
 func (a *Agent) GetQueuedJobs() []Job {
+	a.JobMtx.Lock()
+	defer a.JobMtx.Unlock()
+
 	var Jobs []Job
 	var JobsSize = 0
 	var NumJobs = 0
@@ -813,7 +834,10 @@ func (a *Agent) PivotAddJob(job Job) {
 		pivots = &pivots.Parent.Pivots
 	}
 
+	// the first hop is another agent with its own queue lock
+	pivots.Parent.JobMtx.Lock()
 	pivots.Parent.JobQueue = append(pivots.Parent.JobQueue, PivotJob)
+	pivots.Parent.JobMtx.Unlock()
 }
 
 func (a *Agent) DownloadAdd(FileID int, FilePath string, FileSize int64) error {
